@@ -7,7 +7,7 @@ import gen, s4, lang, thstruct, meta
 from props import c01, c03
 
 PROP_FILE = 'Props/C05.v'
-GROUPS = ['imain', 'theory', 'dynamic']
+GROUPS = ['imain', 'theory', 'dynamic', 'reps']
 LEAF_LEMMAS = ['reduce_eqs_hold']
 ASSUMPTIONS = ['gringo/clasp contract G1-G6 (DESIGN.md 5.3)', 'non-normal paths (iteration over bodies that may not consume a step) are outside the property and only checked for their outcome class in C15']
 
